@@ -230,6 +230,8 @@ struct ctx {
     uint64_t yrng;      /* separate stream for the scheduling noise: never influences the script */
     const char *op;     /* current operation label (ro mode: read by the fault handler) */
     unsigned long nops; /* library calls made */
+    unsigned visits[MAXT]; /* rounds run per type: hand-made values and random ones alternate, the hand-made ones in turn */
+    int idx;            /* script index (thread number) */
     const asn_TYPE_descriptor_t *td;
 };
 static __thread struct ctx *CUR;
@@ -578,6 +580,7 @@ static NOINSTR void one_round(struct ctx *c, int ti) {
     log_t *L = &c->log;
     void *st = 0, *st2 = 0;
     int rc;
+    unsigned visit;
     size_t s, k;
     asn_enc_rval_t er;
     asn_dec_rval_t rv;
@@ -586,17 +589,19 @@ static NOINSTR void one_round(struct ctx *c, int ti) {
     c->td = td;
     if(NOT_PDU[ti]) return;
     lstr(L, td->name); lstr(L, ":");
-    if(SEEDS[ti] && SEEDS[ti][0] && (HAS_NOFILL[ti] || rbelow(2))) {
+    visit = c->visits[ti]++;
+    if(SEEDS[ti] && SEEDS[ti][0] && (HAS_NOFILL[ti] || (visit & 1) == 0)) {
         /* value from a hand-made DER encoding */
         int ns = 0; const char *h; uint8_t sb[256]; size_t sn = 0;
         while(SEEDS[ti][ns]) ns++;
-        h = SEEDS[ti][rbelow(ns)];
+        h = SEEDS[ti][((HAS_NOFILL[ti] ? visit : visit / 2) + (unsigned)c->idx) % (unsigned)ns];
         for(; h[0] && h[1] && sn < sizeof sb; h += 2) { unsigned v = 0; sscanf(h, "%2x", &v); sb[sn++] = (uint8_t)v; }
         OP(c, "ber_decode(seed)");
         rv = ber_decode(0, td, &st, sb, sn);
         lnum(L, "seed", rv.code);
-        if(rv.code != RC_OK) { OP(c, "free"); ASN_STRUCT_FREE(*td, st); st = 0; }
-    } else if(!HAS_NOFILL[ti]) {
+        if(rv.code != RC_OK) { OP(c, "free"); ASN_STRUCT_FREE(*td, st); st = 0; }   /* a directed undecodable input: the decoder's failure path ran */
+    }
+    if(!st && !HAS_NOFILL[ti]) {
         OP(c, "asn_random_fill");
         rc = asn_random_fill(td, &st, IS_REC[ti] ? 24 : 60 + rbelow(200));
         lnum(L, "fill", rc);
@@ -994,6 +999,8 @@ static NOINSTR void script(struct ctx *c, uint64_t seed, int idx, int iters) {
     int it, i;
     tl_rng = seed * 1000003u + (uint64_t)idx * 7919u + 17;
     c->yrng = tl_rng ^ 0x5555555555555555ull;
+    c->idx = idx;
+    memset(c->visits, 0, sizeof c->visits);
     CUR = c;
     for(it = 0; it < iters; it++) {
         /* every thread starts at a different type and walks all of them */
